@@ -50,7 +50,7 @@ def _make_per_example_loss(noise):
   def pel(params, batch, rng):
     # params is {'w': f32[2]} or the two-leaf form {'z1': f32[1], 'a0': f32[1]} (inserted z1 first, flattened by jax
     # in sorted-key order a0, z1): the canonical coordinate order is (z1, a0)
-    w = params['w'] if 'w' in params else jnp.concatenate([params['z1'], params['a0']])
+    w = param_vector(params)
     r = batch['x'] @ w - batch['y']
     loss = 0.5 * r * r
     if noise:
@@ -77,7 +77,46 @@ def scaled(data, e):
   return {'x': [[v * f for v in row] for row in data['x']], 'y': [v * f for v in data['y']]}
 
 
-def client_dataset(data, xdtype='float32'):
+LAYOUTS = ['c', 'fortran', 'transposed', 'every_other', 'reversed', 'column_slice', 'readonly']
+
+
+def relayout(a, layout):
+  """The same values with another memory layout (WAVE5 item 1)."""
+  a = np.asarray(a)
+  if layout == 'fortran':
+    return np.asfortranarray(a)
+  if layout == 'transposed':
+    return np.ascontiguousarray(a.T).T if a.ndim == 2 else a
+  if layout == 'every_other':
+    big = np.zeros((2 * a.shape[0],) + a.shape[1:], a.dtype)
+    big[::2] = a
+    return big[::2]
+  if layout == 'reversed':
+    return np.ascontiguousarray(a[::-1])[::-1]
+  if layout == 'column_slice':
+    if a.ndim != 2:
+      wide = np.zeros((a.shape[0], 3), a.dtype)
+      wide[:, 1] = a
+      return wide[:, 1]
+    wide = np.zeros((a.shape[0], a.shape[1] + 2), a.dtype)
+    wide[:, 1:-1] = a
+    return wide[:, 1:-1]
+  if layout == 'readonly':
+    b = a.copy()
+    b.setflags(write=False)
+    return b
+  return a
+
+
+def client_dataset(data, xdtype='float32', layout='c'):
+  ds = _client_dataset(data, xdtype)
+  if layout == 'c':
+    return ds
+  import fedjax
+  return fedjax.ClientDataset({k: relayout(v, layout) for k, v in ds.raw_examples.items()})
+
+
+def _client_dataset(data, xdtype='float32'):
   """xdtype float16: the dyadic data are exact in it; the loss promotes to float32."""
   import fedjax
   n = len(data['y'])
@@ -116,12 +155,66 @@ def make_key(seed, form='jax'):
   return np.asarray(k) if form == 'numpy' else k
 
 
+import collections
+PNamed = collections.namedtuple('PNamed', ['first', 'second'])
+
+CONTAINERS = ['w', 2, 'tuple', 'named', 'list', 'nested', 'flatmap']
+
+
 def make_params(values, form='jax', leaves=1):
+  """The 2 parameter coordinates in one of several pytree containers (WAVE5 item 6).  `leaves`: 1 = {'w': f32[2]};
+  2 = {'z1': f32[1], 'a0': f32[1]} (insertion order is not the sorted key order); 'tuple' / 'named' / 'list' = two f32[1]
+  leaves in a tuple / NamedTuple / list; 'nested' = {'l1': {'w': ..}, 'l0': {'b': ..}}; 'flatmap' = the same as a haiku
+  FlatMap.  The canonical coordinate order is always (first value, second value)."""
   import jax.numpy as jnp
-  mk = (lambda v: np.asarray(v, dtype=np.float32)) if form == 'numpy' else (lambda v: jnp.asarray(v, dtype=jnp.float32))
+  if form == 'numpy_ro':        # read-only numpy leaves
+    mk = lambda v: relayout(np.asarray(v, dtype=np.float32), 'readonly')
+  elif form == 'numpy_nc':      # non-contiguous (strided) numpy leaves
+    mk = lambda v: relayout(np.asarray(v, dtype=np.float32), 'every_other')
+  elif form == 'numpy':
+    mk = lambda v: np.asarray(v, dtype=np.float32)
+  else:
+    mk = lambda v: jnp.asarray(v, dtype=jnp.float32)
+  a, b = mk(values[:1]), mk(values[1:])
+  if leaves in (1, 'w'):
+    return {'w': mk(values)}
   if leaves == 2:
-    return {'z1': mk(values[:1]), 'a0': mk(values[1:])}      # insertion order is not the sorted key order
-  return {'w': mk(values)}
+    return {'z1': a, 'a0': b}
+  if leaves == 'tuple':
+    return (a, b)
+  if leaves == 'named':
+    return PNamed(a, b)
+  if leaves == 'list':
+    return [a, b]
+  if leaves == 'nested':
+    return {'l1': {'w': a}, 'l0': {'b': b}}
+  if leaves == 'flatmap':
+    import haiku as hk
+    return hk.data_structures.to_immutable_dict({'l1': {'w': a}, 'l0': {'b': b}})
+  raise ValueError(leaves)
+
+
+def param_leaves(params):
+  """The leaves of any of the containers above in canonical order."""
+  if isinstance(params, (tuple, list)):
+    return list(params)
+  if 'w' in params:
+    return [params['w']]
+  if 'z1' in params:
+    return [params['z1'], params['a0']]
+  return [params['l1']['w'], params['l0']['b']]
+
+
+def param_vector(params):
+  """jnp vector of the parameters in canonical order (used by the loss functions)."""
+  import jax.numpy as jnp
+  lv = param_leaves(params)
+  return lv[0] if len(lv) == 1 else jnp.concatenate(lv)
+
+
+def same_structure(a, b):
+  import jax
+  return jax.tree_util.tree_structure(a) == jax.tree_util.tree_structure(b) and type(a) is type(b)
 
 
 FORMS0 = {'clients': 'list', 'ids': 'bytes', 'init': 'jax', 'key': 'jax', 'leaves': 1}
@@ -130,7 +223,8 @@ FORMS0 = {'clients': 'list', 'ids': 'bytes', 'init': 'jax', 'key': 'jax', 'leave
 def gen_forms(rng):
   """Item 1 of WAVE3: delivery forms of the arguments of apply / init."""
   return {'clients': rng.choice(['list', 'tuple']), 'ids': rng.choice(['bytes', 'str', 'int', 'negint', 'none0']),
-          'init': rng.choice(['jax', 'numpy']), 'key': rng.choice(['jax', 'numpy']), 'leaves': rng.choice([1, 1, 2])}
+          'init': rng.choice(['jax', 'numpy', 'numpy_ro', 'numpy_nc']), 'key': rng.choice(['jax', 'numpy']),
+          'leaves': rng.choice([1, 1, 1, 2, 'tuple', 'named', 'list', 'nested', 'flatmap'])}
 
 
 class CallerData:
@@ -261,13 +355,11 @@ class Recorder:
 
 
 def flat(params):
-  if 'w' not in params:
-    return [float(v) for k in ('z1', 'a0') for v in np.asarray(params[k], dtype=np.float64).reshape(-1)]
-  return [float(v) for v in np.asarray(params['w'], dtype=np.float64).reshape(-1)]
+  return [float(v) for leaf in param_leaves(params) for v in np.asarray(leaf, dtype=np.float64).reshape(-1)]
 
 
 def first_leaf(params):
-  return params['w'] if 'w' in params else params['z1']
+  return param_leaves(params)[0]
 
 
 def trace_of(opt_state):
@@ -392,6 +484,8 @@ WORKER_ENVS = {
     'tfp1': {'JAX_THREEFRY_PARTITIONABLE': '1'},
     'x64': {'JAX_ENABLE_X64': '1'},
     'rankraise': {'JAX_NUMPY_RANK_PROMOTION': 'raise'},
+    'hash1': {'PYTHONHASHSEED': '12345'},
+    'hash2': {'PYTHONHASHSEED': '777'},
 }
 _WORKERS = {}
 
@@ -422,24 +516,37 @@ def worker_main(run_local):
     out.flush()
 
 
-def run_in_worker(module, tag, case):
-  """Runs `harness.<module>.run_local(case)` in a persistent subprocess started with WORKER_ENVS[tag]."""
+def _spawn(module, tag):
   import atexit
-  import json
   import os
   import subprocess
   import sys
+  env = dict(os.environ)
+  for k, v in WORKER_ENVS[tag].items():
+    env[k] = (env.get(k, '') + ' ' + v).strip() if k == 'XLA_FLAGS' else v
+  p = subprocess.Popen([sys.executable, '-c', f'from harness import {module} as m; from lib import fedsim; fedsim.worker_main(m.run_local)'],
+                       stdin=subprocess.PIPE, stdout=subprocess.PIPE, stderr=subprocess.DEVNULL, env=env, text=True, bufsize=1)
+  if not _WORKERS:
+    atexit.register(kill_workers)
+  _WORKERS[tag] = [p, None]
+
+
+def prestart(module, tags):
+  """Starts the worker processes now so that their import time overlaps with the in-process cases."""
+  for tag in tags:
+    if tag not in _WORKERS or _WORKERS[tag][0].poll() is not None:
+      _spawn(module, tag)
+
+
+def run_in_worker(module, tag, case):
+  """Runs `harness.<module>.run_local(case)` in a persistent subprocess started with WORKER_ENVS[tag]."""
+  import json
   if tag not in _WORKERS or _WORKERS[tag][0].poll() is not None:
-    env = dict(os.environ)
-    for k, v in WORKER_ENVS[tag].items():
-      env[k] = (env.get(k, '') + ' ' + v).strip() if k == 'XLA_FLAGS' else v
-    p = subprocess.Popen([sys.executable, '-c', f'from harness import {module} as m; from lib import fedsim; fedsim.worker_main(m.run_local)'],
-                         stdin=subprocess.PIPE, stdout=subprocess.PIPE, stderr=subprocess.DEVNULL, env=env, text=True, bufsize=1)
-    if not _WORKERS:
-      atexit.register(kill_workers)
-    _WORKERS[tag] = (p, json.loads(p.stdout.readline()))
-  p, info = _WORKERS[tag]
+    _spawn(module, tag)
+  p = _WORKERS[tag][0]
   try:
+    if _WORKERS[tag][1] is None:
+      _WORKERS[tag][1] = json.loads(p.stdout.readline())
     p.stdin.write(json.dumps(case) + '\n')
     p.stdin.flush()
     obs = json.loads(p.stdout.readline())
@@ -447,5 +554,5 @@ def run_in_worker(module, tag, case):
     p.kill()
     _WORKERS.pop(tag, None)
     raise
-  obs['worker'] = info
+  obs['worker'] = _WORKERS[tag][1]
   return obs
